@@ -150,14 +150,54 @@ func checkC17(c *Ctx) {
 			nCalls++
 			key := fmt.Sprintf("%s:FilterTag#%d", shortFuncName(fn), nCalls)
 			arg := call.Call.Args[0]
-			switch a := arg.(type) {
-			case *ssa.Call:
-				c.Check(a.Call.StaticCallee() == ml && ml != nil, "LOWER", key, in.Pos(), "argument must be maybeLower(name), got "+describeValue(arg))
-			case *ssa.Slice:
-				c.Check(h.buf(a.X), "LOWER", key, in.Pos(), "argument must be the just-written atom name in the output buffer")
-			default:
-				c.Viol("LOWER", key, in.Pos(), "FilterTag argument is neither a lower-cased name nor an atom name: "+describeValue(arg))
+			// the name may reach the predicate through parameters of helpers: follow each to every call site
+			var lowered func(v ssa.Value, f *ssa.Function, depth int) (bool, string)
+			lowered = func(v ssa.Value, f *ssa.Function, depth int) (bool, string) {
+				switch a := v.(type) {
+				case *ssa.Call:
+					if a.Call.StaticCallee() == ml && ml != nil {
+						return true, ""
+					}
+					return false, "argument must be maybeLower(name), got " + describeValue(v)
+				case *ssa.Slice:
+					if h.buf(a.X) {
+						return true, ""
+					}
+					return false, "argument must be the just-written atom name in the output buffer"
+				case *ssa.Parameter:
+					if depth > 3 {
+						return false, "name passed through too many helpers"
+					}
+					idx := -1
+					for i, q := range f.Params {
+						if q == a {
+							idx = i
+						}
+					}
+					n := 0
+					for _, g := range p.Funcs {
+						okAll, why := true, ""
+						eachInstr(g, func(x ssa.Instruction) {
+							if cl, ok := x.(*ssa.Call); ok && cl.Call.StaticCallee() == f && idx >= 0 && idx < len(cl.Call.Args) {
+								n++
+								if ok2, w := lowered(cl.Call.Args[idx], g, depth+1); !ok2 {
+									okAll, why = false, w
+								}
+							}
+						})
+						if !okAll {
+							return false, why
+						}
+					}
+					if n == 0 {
+						return false, "helper without call sites"
+					}
+					return true, ""
+				}
+				return false, "FilterTag argument is neither a lower-cased name nor an atom name: " + describeValue(v)
 			}
+			okL, whyL := lowered(arg, fn, 0)
+			c.Check(okL, "LOWER", key, in.Pos(), whyL)
 			guarded := filterNonNilDominates(fn, call.Block()) || allCallSitesFiltered(p, fn)
 			c.Check(guarded, "NILFILTER", key, in.Pos(), "FilterTag must be called only where it is known to be non-nil")
 		})
@@ -183,6 +223,7 @@ func checkC17(c *Ctx) {
 	ruleFRAutomaton(c)
 	ruleFRTagSkip(c)
 	ruleTagNameSet(c)
+	ruleLowerTransient(c)
 	c.Assume("FR-AUTOMATON, FR-TAGSKIP and TAGNAME-SET decide that the scanner never skips further than an HTML tokenizer would and never measures a longer tag name; equality of the two languages (e.g. names with characters outside letters, digits and hyphen) is not decided")
 }
 
